@@ -37,6 +37,7 @@ var keyModes = []string{"none", "tls", "custom", "setter", "both"}
 func genKeyCfg(t *rapid.T, label string, fieldKey, setterKey string, allowEC bool) h.KeyCfg {
 	mode := rapid.SampledFrom(keyModes).Draw(t, label+"Mode")
 	k := h.KeyCfg{Mode: mode, Field: h.CertRef{Key: fieldKey, Window: rapid.SampledFrom(h.SPWindows).Draw(t, label+"FieldCert")}, Setter: h.CertRef{Key: setterKey, Window: rapid.SampledFrom(h.SPWindows).Draw(t, label+"SetterCert")}}
+	k.Chain = rapid.IntRange(0, 3).Draw(t, label+"Chain") == 0
 	if allowEC && (mode == "setter" || mode == "both") && rapid.IntRange(0, 3).Draw(t, label+"EC") == 0 {
 		k.Setter = h.CertRef{Key: "S3", Window: "wide"}
 	}
@@ -379,8 +380,14 @@ func checkC13(c OutCase) h.Outcome {
 		o.Violation = h.V("signature-position", "Signature is child #%d after %q; the schema wants it immediately after Issuer", f.Index, f.PrevTag)
 		return o
 	}
-	if len(f.EmbeddedCerts) != 1 || !bytes.Equal(f.EmbeddedCerts[0], want.DER()) {
-		o.Violation = h.V(keySig, "embedded certificate is not the expected signing certificate %v (embedded %d certs)", want, len(f.EmbeddedCerts))
+	// a chain store has its whole chain embedded (leaf first); every other configuration exactly the certificate
+	wantEmbedded := [][]byte{want.DER()}
+	if c.SP.SignerChain() {
+		wantEmbedded = append(wantEmbedded, h.ChainIssuer.DER())
+		o.Classes = append(o.Classes, "signer-chain")
+	}
+	if len(f.EmbeddedCerts) != len(wantEmbedded) || !bytes.Equal(f.EmbeddedCerts[0], want.DER()) || !bytes.Equal(f.EmbeddedCerts[len(f.EmbeddedCerts)-1], wantEmbedded[len(wantEmbedded)-1]) {
+		o.Violation = h.V(keySig, "embedded certificate is not the expected signing certificate %v (embedded %d certs, expected %d)", want, len(f.EmbeddedCerts), len(wantEmbedded))
 		return o
 	}
 	ec := h.K(want.Key).Kind == "ecdsa"
@@ -701,8 +708,9 @@ func TestC13_Grid(t *testing.T) {
 						continue // the odd-byte certificates: one kind per key configuration
 					}
 					sp := h.BaseSP()
-					sp.Enc = h.KeyCfg{Mode: em, Field: h.CertRef{Key: "E1", Window: w}, Setter: h.CertRef{Key: "E2", Window: w}}
-					sp.Sig = h.KeyCfg{Mode: sm, Field: h.CertRef{Key: "S1", Window: w}, Setter: h.CertRef{Key: "S2", Window: w}}
+					chain := (wi+len(kind))%2 == 0
+					sp.Enc = h.KeyCfg{Mode: em, Field: h.CertRef{Key: "E1", Window: w}, Setter: h.CertRef{Key: "E2", Window: w}, Chain: chain}
+					sp.Sig = h.KeyCfg{Mode: sm, Field: h.CertRef{Key: "S1", Window: w}, Setter: h.CertRef{Key: "S2", Window: w}, Chain: chain}
 					if _, ok := expectedSigner(sp); !ok {
 						continue
 					}
